@@ -1,6 +1,8 @@
 """C11 — periodical / bulk / chunk executors run every added task exactly once; Wait covers; panic isolation."""
 import json
 import random
+import threading
+from concurrent.futures import ThreadPoolExecutor
 
 LEVEL = "model_checking"
 RULE = ("TLC model-checks PEImpl.tla (the producer/flusher hand-off protocol of periodicalexecutor.go: lock sections, "
@@ -10,30 +12,65 @@ RULE = ("TLC model-checks PEImpl.tla (the producer/flusher hand-off protocol of 
         "hook-gate releases) per distinct final state plus every schedule that ends in an uncovered Wait; each schedule is "
         "replayed on real PeriodicalExecutor/BulkExecutor/ChunkExecutor objects (gated callbacks, harness ticker, virtual "
         "clock, quiescence detected from goroutine states), free-running stress runs are added, and every recorded trace "
-        "is validated by TLC against PE.tla. distinct = distinct (kind, threshold, schedule) triples executed + stress runs.")
+        "is validated by TLC against PE.tla. Tasks carry sizes (Sizes; ChunkExecutor.Add(task, size), 0 and negative "
+        "included) and the threshold is on the accumulated size. Besides one schedule per final state, TLC prints the "
+        "schedules that pass through named protocol situations (PEImpl.tla Sit: quitRefused, addWhileOut, enterBlocked, "
+        "tickSkipped, quitFlush, waitSpin, zeroOnly; 3 producers where needed), which are replayed on the three executors "
+        "and, scaled to maxBulkRows, on sqlx.BulkInserter. "
+        "distinct = distinct (kind, threshold, schedule) triples executed + stress runs.")
 
 FAM = "executors"
 PKG = "core/executors"
 DRV = ["zz_verif_pe_test.go"]
+SQLX = "core/stores/sqlx"
+SQLX_DRV = ["zz_verif_bulkinserter_test.go", "zz_verif_c11_bisteer_test.go"]
 TRACE = ("PETrace", "PETrace.cfg")
 KINDS = ["pe", "bulk", "chunk"]
 
 
 def _mc(run, cfg, workers, note, expect="ok", module="PEImpl", timeout=1200):
-    return run.model_check(FAM, module, cfg, workers=workers, note=note, expect=expect, timeout=timeout)
+    # documented counterexamples: no trace-explorer spec (two of them run side by side in one directory)
+    args = ("-noGenerateSpecTE",) if expect == "violation" else ()
+    # cap the heap: the default (a quarter of the machine per JVM) invites the kernel's OOM killer when many checks run
+    return run.model_check(FAM, module, cfg, workers=workers, note=note, expect=expect, timeout=timeout, args=args,
+                           heap="4g")
 
 
-def _sched(beh, thr, hook, kinds):
+def _par(jobs, width):
+    """Run independent TLC jobs side by side (each job = a callable); an Infra raised by one is re-raised."""
+    with ThreadPoolExecutor(max_workers=width) as ex:
+        futs = [ex.submit(j) for j in jobs]
+        return [f.result() for f in futs]
+
+
+def _threadsafe(run):
+    """vlib.Run.tmp() numbers scratch names with an unprotected counter: serialise it for _par."""
+    lock = threading.Lock()
+    orig = run.tmp
+
+    def tmp(name):
+        with lock:
+            return orig(name)
+    run.tmp = tmp
+    run._spec_copy(FAM)
+
+
+def _steps(b):
+    """a generated behaviour is either the list of environment steps or {hits, steps}"""
+    return b["steps"] if isinstance(b, dict) else b
+
+
+def _sched(beh, thr, hook, kinds, fam):
     out = []
-    for i, steps in enumerate(beh):
+    for i, b in enumerate(beh):
         for k in kinds(i):
-            out.append({"kind": k, "thr": thr, "hook": hook, "steps": steps})
+            out.append({"kind": k, "thr": thr, "hook": hook, "steps": _steps(b), "fam": fam})
     return out
 
 
 def _replay(run, scheds, label):
     if not scheds:
-        return
+        return None
     tr = run.go_driver(PKG, DRV, "TestVerifPEReplay$", inp=scheds, timeout=900)
     info = {}
     for ln in open(tr):
@@ -47,11 +84,25 @@ def _replay(run, scheds, label):
     run.evaluations += done
     for s in scheds:
         run.distinct.add((s["kind"], s["thr"], s["hook"], json.dumps(s["steps"], sort_keys=True)))
-    run.validate(FAM, TRACE[0], TRACE[1], tr, label=label, split=400)
+    return tr
+
+
+def _bisteer(run, beh, thr, n, rnd):
+    """tick-free schedules on a real sqlx.BulkInserter (threshold is the package constant: scaled Adds)"""
+    ok = [b for b in beh if not any(s["op"] in ("tick", "adv", "hook") for s in _steps(b))]
+    ok = rnd.sample(ok, min(n, len(ok)))
+    if not ok:
+        return None
+    scheds = [{"thr": thr, "steps": _steps(b)} for b in ok]
+    tr = run.go_driver(SQLX, SQLX_DRV, "TestVerifBISteer$", inp=scheds, timeout=600)
+    run.evaluations += len(scheds)
+    for s in scheds:
+        run.distinct.add(("bulkinserter", thr, False, json.dumps(s["steps"], sort_keys=True)))
+    return tr
 
 
 def _bulkinserter(run):
-    tr = run.go_driver("core/stores/sqlx", ["zz_verif_bulkinserter_test.go"], "TestVerifBulkInserter$", timeout=600)
+    tr = run.go_driver(SQLX, SQLX_DRV, "TestVerifBulkInserter$", timeout=600)
     n0 = run.traces
     run.validate(FAM, TRACE[0], TRACE[1], tr, label="bulkinserter")
     run.evaluations += run.traces - n0
@@ -74,40 +125,67 @@ def check(run):
         "selects schedules; no verdict depends on it. The only time bound is a 20 s watchdog on calls that never return "
         "with every gate open, which the spec classifies (end.pending must be empty)",
         "the `take` events (container wrapper) feed only the guard of known finding KF_WaitMissesHandover",
+        "the size a task is added with (ChunkExecutor.Add(task, size), logged as z) is not read by the property-level "
+        "spec: the obligations towards a task do not depend on it",
+        "sqlx.BulkInserter: Wait is PeriodicalExecutor.Wait on the inserter's executor; its flush timer is real "
+        "(not steered), which can only make a run deviate from the schedule",
     ]
+    _threadsafe(run)
     w = 8 if thorough else 4
+    kf_open = any(f.get("status") == "open" for f in run.findings)
     # ---- design level -------------------------------------------------------------------
-    _mc(run, "PEImplBug1.cfg", 2, "code as it is, confirmations routed: WaitCovers violated (hand-over not entered)", "violation")
-    _mc(run, "PEImplBug2.cfg", 2, "code as it is, threshold 1: WaitCovers violated (shared confirmChan)", "violation")
-    _mc(run, "PEImplMCkf.cfg", w, "code as it is: every WaitCovers violation is in the situation of KF_WaitMissesHandover; "
+    _par([lambda: _mc(run, "PEImplBug1.cfg", 2, "code as it was, confirmations routed: WaitCovers violated (hand-over not entered)", "violation"),
+          lambda: _mc(run, "PEImplBug2.cfg", 2, "code as it was, threshold 1: WaitCovers violated (shared confirmChan)", "violation")], 2)
+    _mc(run, "PEImplMCkf.cfg", w, "code as it was: every WaitCovers violation is in the situation of KF_WaitMissesHandover; "
                                   "all other guards/invariants hold")
-    _mc(run, "PEImplMCfix.cfg", w, "repair (enter before inflight--, Wait waits for inflight=0): all guards hold")
+    _mc(run, "PEImplMCsz.cfg", w, "repair (enter before inflight--, Wait waits for inflight=0), task sizes {0,1} against an "
+                                  "accumulated-size threshold 2 (includes the count-threshold behaviours): all guards hold")
     _mc(run, "PEImplLive.cfg", w, "repair, fair: every call returns (Wait terminates)")
     if thorough:
+        _mc(run, "PEImplMCfix.cfg", w, "repair, count threshold: all guards hold")
         _mc(run, "PEImplMCfix2.cfg", w, "repair, threshold 1, 3 producers")
         _mc(run, "PEImplMCfixL.cfg", w, "repair, 2 producers, 3 tasks, Flush+2 Waits, 2 ticks, quit/restart", timeout=2400)
-        _mc(run, "PEImplLiveKf.cfg", w, "code as it is, fair: every call returns")
-        _mc(run, "PEImplMCkf2.cfg", w, "code as it is, threshold 1 (shared confirmChan): violations only in the KF situation")
-    # ---- spec -> code: design-level counterexamples must be reproduced (or not) on the real code
-    bad1 = run.generate(FAM, "PEImpl", "PEImplGenBad1.cfg")
-    bad2 = run.generate(FAM, "PEImpl", "PEImplGenBad2.cfg")
-    allk = lambda i: KINDS
-    onek = lambda i: [KINDS[i % 3]]
-    kf_open = any(f.get("status") == "open" for f in run.findings)
+        _mc(run, "PEImplMCszN.cfg", w, "repair, sizes {-1,0,1,2} (sizes that cancel out)")
+        _mc(run, "PEImplLiveKf.cfg", w, "code as it was, fair: every call returns")
+        _mc(run, "PEImplMCkf2.cfg", w, "code as it was, threshold 1 (shared confirmChan): violations only in the KF situation")
+    # ---- spec -> code: schedule generation (independent single-worker TLC runs, side by side)
+    #   cfg, threshold, hook gate, kinds the schedules are meaningful for
+    allK, sized = KINDS, ["pe", "chunk"]
+    gens = [("PEImplGenBad1.cfg", 2, False, allK), ("PEImplGenBad2.cfg", 1, True, allK),
+            ("PEImplGenR.cfg", 2, False, sized), ("PEImplGenO.cfg", 1, False, allK)]
+    if thorough:
+        gens += [("PEImplGenZL.cfg", 2, False, sized), ("PEImplGenP.cfg", 2, False, allK), ("PEImplGenA.cfg", 2, False, allK),
+                 ("PEImplGenB.cfg", 1, False, allK), ("PEImplGenH.cfg", 1, True, allK)]
+    else:
+        gens += [("PEImplGenZ.cfg", 2, False, sized), ("PEImplGenQ.cfg", 2, False, allK), ("PEImplGenH.cfg", 1, True, allK)]
+    behs = _par([(lambda c=cfg: run.generate(FAM, "PEImpl", c)) for cfg, _, _, _ in gens], 8 if thorough else 4)
+    beh = {g[0]: b for g, b in zip(gens, behs)}
+    # design-level counterexamples must be reproduced (or not) on the real code
+    bad1, bad2 = beh["PEImplGenBad1.cfg"], beh["PEImplGenBad2.cfg"]
     if kf_open:
         # every trace explained by an open known finding costs several TLC starts: keep a handful
         k = 6 if thorough else 2
-        bad1, bad2 = rnd.sample(bad1, min(len(bad1), k)), rnd.sample(bad2, min(len(bad2), k))
-        allk = onek
-    _replay(run, _sched(bad1, 2, False, allk if thorough else onek) + _sched(bad2, 1, True, allk if thorough else onek),
-            "replay-counterexamples")
-    # ---- spec -> code: one schedule per distinct final state
-    gens = [("PEImplGenQ.cfg", 2, False), ("PEImplGenH.cfg", 1, True)]
-    if thorough:
-        gens = [("PEImplGenA.cfg", 2, False), ("PEImplGenB.cfg", 1, False), ("PEImplGenH.cfg", 1, True)]
-    for cfg, thr, hook in gens:
-        beh = run.generate(FAM, "PEImpl", cfg)
-        _replay(run, _sched(beh, thr, hook, allk if (thorough and len(beh) < 500) else onek), "replay-" + cfg[6:-4])
+        beh["PEImplGenBad1.cfg"], beh["PEImplGenBad2.cfg"] = rnd.sample(bad1, min(len(bad1), k)), rnd.sample(bad2, min(len(bad2), k))
+    scheds = []
+    for cfg, thr, hook, kinds in gens:
+        b = beh[cfg]
+        if len(b) > 1200 and cfg in ("PEImplGenZL.cfg",):
+            b = rnd.sample(b, 1200)   # one per final state and situation is plenty: a seeded sample per run
+        small = len(b) * len(kinds) <= (1500 if thorough else 60)
+        if cfg.startswith("PEImplGenBad"):
+            small = thorough and not kf_open
+        every = (lambda i, kinds=kinds: kinds)
+        one = (lambda i, kinds=kinds: [kinds[i % len(kinds)]])
+        scheds += _sched(b, thr, hook, every if small else one, cfg[6:-4])
+    traces = [_replay(run, scheds, "replay")]
+    # the same situation on the row buffer of sqlx.BulkInserter
+    traces.append(_bisteer(run, beh["PEImplGenO.cfg"], 1, 6 if thorough else 2, rnd))
+    merged = run.tmp("replay-all.ndjson")
+    with open(merged, "w") as fh:
+        for tr in traces:
+            if tr:
+                fh.write(open(tr).read())
+    run.validate(FAM, TRACE[0], TRACE[1], merged, label="replay", split=400 if thorough else 2000)
     # ---- code -> spec: unsteered stress
     nruns = (320 if thorough else 90) if not kf_open else (30 if thorough else 10)
     for cpu in ([4] if not thorough else [1, 2, 4, 16]):
@@ -125,7 +203,7 @@ LEVEL_TEXT = ("Exhaustive TLC model checking of an implementation-shaped model o
               "the property-level spec (safety in all interleavings, liveness under fairness), with documented "
               "counterexamples for the code as it is; conformance by replaying TLC-generated environment schedules on the "
               "real executors and validating every recorded trace (replay and stress) with TLC against PE.tla.")
-LEVEL_NOTE = ("Bounded at design level: 2-3 producers, <= 3 tasks, thresholds 1-2, <= 2 ticks, 2 flusher generations. Real "
+LEVEL_NOTE = ("Bounded at design level: 2-3 producers, <= 3 tasks, thresholds 1-2, sizes -1..2, <= 2 ticks, 2 flusher generations. Real "
               "code: schedules TLC generated plus random stress; interleavings inside the library that neither produces are "
               "not forced. Trusted: TLC/SANY, Go toolchain, harness emit order (DESIGN.md A.5).")
 TECHNIQUE = "TLA+ Layer-I/Layer-P specs (PEImpl/PE), TLC refinement + liveness check, TLC-generated schedule replay + TLC trace validation"
